@@ -369,3 +369,20 @@ Section Rank.
         pose proof (rk_rank_order g i j Hi Hj Lt). lia.
   Qed.
 End Rank.
+
+Lemma executed_instances_ok p :
+  sorting_perm_nat (g_ids p) (ordered_members_map p) /\
+  (forall row, sorting_perm_ext row (argsort_ext row)) /\
+  (forall l, sorting_perm_nat l (argsort_nat l)) /\
+  all p = all_with (ordered_members_map p) p /\
+  max p = max_with (ordered_members_map p) p /\
+  min p = min_with (ordered_members_map p) p /\
+  (forall A, @value_nth_person A p = value_nth_person_with (ordered_members_map p) p) /\
+  value_from_first_person p = value_from_first_person_with (ordered_members_map p) p /\
+  (forall A, @value_from_person A p = value_from_person_with (ordered_members_map p) p) /\
+  get_rank p = get_rank_with argsort_ext argsort_nat (ordered_members_map p) p.
+Proof.
+  split; [apply ordered_members_map_sorting|].
+  split; [apply argsort_ext_sorting|]. split; [apply argsort_nat_sorting|].
+  repeat split.
+Qed.
